@@ -354,9 +354,6 @@ const (
 // header[0] byte is expected to be the first byte of the chunk size here.
 func (cr *ChunkReader) parseChunkHeaderBytes(header []byte, l *int) (int64, string, int, error) {
 	stashLen := len(cr.stash)
-	if stashLen > maxHeaderSize {
-		return 0, "", 0, errInvalidChunkFormat
-	}
 	if cr.stash != nil {
 		tmp := make([]byte, stashLen+len(header))
 		copy(tmp, cr.stash)
@@ -378,6 +375,18 @@ func (cr *ChunkReader) parseChunkHeaderBytes(header []byte, l *int) (int64, stri
 			return cr.handleRdrErr(err, header)
 		}
 		skip = 2
+	}
+
+	// One limit for a header however it arrives, in one read or in pieces:
+	// its first line (chunk size and signature) has at most maxHeaderSize
+	// bytes, and all of it (the last header has trailer lines) at most
+	// twice that. What has arrived so far is judged by the same numbers.
+	ind := bytes.Index(header[skip:], []byte{'\r', '\n'})
+	if ind > maxHeaderSize || (ind < 0 && len(header)-skip > maxHeaderSize+1) {
+		return 0, "", 0, errInvalidChunkFormat
+	}
+	if stashLen-skip > 2*maxHeaderSize {
+		return 0, "", 0, errInvalidChunkFormat
 	}
 
 	// read and parse the chunk size
@@ -467,6 +476,9 @@ func (cr *ChunkReader) parseChunkHeaderBytes(header []byte, l *int) (int64, stri
 		if _, err := rdr.ReadByte(); err == nil {
 			return 0, "", 0, errInvalidChunkFormat
 		}
+		if len(header)-skip > 2*maxHeaderSize {
+			return 0, "", 0, errInvalidChunkFormat
+		}
 
 		return 0, sig, 0, nil
 	}
@@ -476,11 +488,6 @@ func (cr *ChunkReader) parseChunkHeaderBytes(header []byte, l *int) (int64, stri
 		return cr.handleRdrErr(err, header)
 	}
 
-	ind := bytes.Index(header[skip:], []byte{'\r', '\n'})
-	if ind > maxHeaderSize {
-		// the same limit as for a header that arrives in pieces
-		return 0, "", 0, errInvalidChunkFormat
-	}
 	cr.isFirstHeader = false
 
 	return chunkSize, sig, skip + ind + len(chunkHdrDelim) - stashLen, nil
